@@ -120,6 +120,8 @@ func c05MakeLeaves() []c05Leaf {
 	add(c05Leaf{Name: "unsafe Stringer", Redact: strT{"sx"}, Fmt: strT{"sx"}, RegIdx: -1, Stringer: true})
 	add(c05Leaf{Name: "Safe(Stringer)", Redact: redact.Safe(strT{"sx"}), Fmt: strT{"sx"}, Safe: true, RegIdx: -1, Stringer: true})
 	add(c05Leaf{Name: "SafeValue Stringer", Redact: safeStrerT{"q"}, Fmt: safeStrerT{"q"}, Safe: true, RegIdx: -1, Stringer: true})
+	add(c05Leaf{Name: "unsafe Formatter(io.WriteString)", Redact: fmtWST{"wp"}, Fmt: fmtWST{"wp"}, RegIdx: -1})
+	add(c05Leaf{Name: "unsafe Formatter(Fprintf)", Redact: fmtT{"fp"}, Fmt: fmtT{"fp"}, RegIdx: -1})
 	add(c05Leaf{Name: "registrable int", Redact: regIntT(5), Fmt: regIntT(5), RegIdx: 0})
 	add(c05Leaf{Name: "registrable string", Redact: regStrT2("rg"), Fmt: regStrT2("rg"), RegIdx: 1})
 	add(c05Leaf{Name: "registrable Stringer", Redact: regStrerT{"rs"}, Fmt: regStrerT{"rs"}, RegIdx: 2, Stringer: true})
